@@ -55,7 +55,7 @@ def trait_args(tr: Optional[str]):
 CANARY_PRELUDE = ('canary_prelude_axioms', '''pub proof fn canary_prelude_axioms()
     ensures false
 {
-    ax_pi(); ax_trig_values(); ax_pythagoras(0real); ax_pythagoras(r_pi() / 2real);
+    ax_pi(); ax_trig_values(); ax_pythagoras(0real); ax_pythagoras(r_pi() / 2real); ax_sin_nonneg(0real); ax_atan2_nonneg(0real, 1real); ax_cos_nonneg(0real);
     ax_sin_add(0real, r_pi() / 2real); ax_cos_add(0real, r_pi() / 2real); ax_sin_neg(0real); ax_cos_neg(0real);
     ax_sqrt(0real); ax_sqrt(4real); ax_fmod(7real, 2real); ax_fmod(0real - 7real, 2real); ax_tan(0real);
     ax_asin(0real); ax_asin(1real); ax_acos(1real); ax_acos(0real); ax_atan(0real);
@@ -243,7 +243,10 @@ class Unit:
         def cur_line():
             return lines[0] + 1
 
-        prelude = open(os.path.join(ROOT, 'contracts', 'prelude_%s.rs' % self.model)).read()
+        if self.model == 'U':
+            prelude = derive_prelude_U(open(os.path.join(ROOT, 'contracts', 'prelude_R.rs')).read())
+        else:
+            prelude = open(os.path.join(ROOT, 'contracts', 'prelude_%s.rs' % self.model)).read()
         add(prelude)
         if not prelude.endswith('\n'):
             add('\n')
@@ -318,7 +321,7 @@ class Unit:
         import sym as _sym
         body_text_so_far = ''.join(out)
         have = ''.join(self.lemma_texts)
-        for nm in sorted(set(re.findall(r'(?<![A-Za-z0-9_])law_([A-Za-z0-9_]+)\(', body_text_so_far))):
+        for nm in ([] if getattr(self, 'no_hints', False) else sorted(set(re.findall(r'(?<![A-Za-z0-9_])law_([A-Za-z0-9_]+)\(', body_text_so_far)))):
             if ('proof fn law_%s(' % nm) in have:
                 continue
             if nm in _sym.LAW_REGISTRY:
@@ -745,7 +748,7 @@ class Unit:
                     body = re.sub(r'\b(%s\.[xyz])\.into\(\)' % m.group(1), r'<%s as Into<Rad<Sc>>>::into(\1)' % self.subst['A'], body)
         if c.closures:
             body = annotate_closures(body, c.closures, f)
-        pre = c.pre
+        pre = c.pre if not getattr(self, 'no_hints', False) else ''
         if self.model == 'R' and self.ac_broadcast:
             # proof aid (not a rewrite of the code): commutativity of the model scalar's + and * is made available by
             # trigger, so that swapping the operands of a product or a sum in /repo does not break a proof
@@ -753,7 +756,7 @@ class Unit:
         if pre:
             i = body.index('{')
             body = body[:i + 1] + '\n proof { ' + pre + ' }\n' + body[i + 1:]
-        if c.tail:
+        if c.tail and not getattr(self, 'no_hints', False):
             body = insert_before_tail(body, ' proof { ' + c.tail + ' }\n')
         return body
 
@@ -784,6 +787,19 @@ class Unit:
                 '    open spec fn %s_req(self, rhs: %s) -> bool { true }\n'
                 '    open spec fn %s_spec(self, rhs: %s) -> %s { %s }\n}\n') % (
                     g, tr, st, m, m, rhs_ty, m, rhs_ty, out_ty, c.spec)
+
+
+def derive_prelude_U(s):
+    """model U from model R, mechanically: the scalar's + - * / % and unary - become uninterpreted functions and the ring
+    lemmas (facts of model R) are dropped; everything else (elementary functions over the view, approx model) is unchanged"""
+    s = s.replace('// prelude_R:', '// prelude_U (derived from prelude_R by emit.derive_prelude_U: scalar arithmetic UNINTERPRETED)\n// prelude_R:', 1)
+    for op in ('add', 'sub', 'mul', 'div', 'rem'):
+        s = re.sub(r'pub open spec fn s_%s\(a: Sc, b: Sc\) -> Sc \{[^\n]*\}\n' % op, 'pub uninterp spec fn s_%s(a: Sc, b: Sc) -> Sc;\n' % op, s)
+    s = re.sub(r'pub open spec fn s_neg\(a: Sc\) -> Sc \{[^\n]*\}\n', 'pub uninterp spec fn s_neg(a: Sc) -> Sc;\n', s)
+    s = re.sub(r'pub broadcast proof fn s_(mul_comm|add_comm|sub_def|neg_neg|neg_add|mul_neg|mul_assoc|mul_add)\([^\n]*\n', '', s)
+    if re.search(r'open spec fn s_(add|sub|mul|div|rem|neg)\(', s):
+        raise ExtractError('prelude_U derivation: an arithmetic operation of the model scalar is still interpreted')
+    return s
 
 
 def insert_before_tail(body, text):
@@ -830,7 +846,20 @@ def annotate_closures(body, closures, f):
             spec += ' requires ' + ', '.join(a['requires'])
         if a.get('ensures'):
             spec += ' ensures ' + ', '.join(a['ensures'])
-        head = '|%s| -> (%s)%s' % (a['params'], a['ret'], spec)
+        params_txt = a['params']
+        cl_end = out.find(';', m.end())
+        region = out[m.end():] if cl_end < 0 else out[m.end():]
+        fixed = []
+        for prm in split_top(params_txt):
+            nm, _, ty = prm.partition(':')
+            nm, ty = nm.strip(), ty.strip()
+            mm = re.search(r'let (a__\d+_\d+) = %s;' % re.escape(nm), region)
+            if mm:
+                mt = re.search(r'let (?:mut )?[A-Za-z_][A-Za-z0-9_]*: ([^=;]+) = %s;' % re.escape(mm.group(1)), region)
+                if mt and re.fullmatch(r'[iu](8|16|32|64|size)', mt.group(1).strip()):
+                    ty = mt.group(1).strip()
+            fixed.append('%s: %s' % (nm, ty))
+        head = '|%s| -> (%s)%s' % (', '.join(fixed), a['ret'], spec)
         pre = (' proof { ' + a['pre'] + ' } ') if a.get('pre') else ''
         if m.group(3):
             out = out[:m.start()] + head + m.group(2) + '{' + pre + out[m.end():]
